@@ -169,8 +169,37 @@ def _classify_value(eng, fd, pl, bi, line, depth):
                                                     (p['k'] == 'field' and p.get('adt', '').startswith(('std::result', 'std::option', 'std::ops::ControlFlow')))
                                                     for p in pl.get('p', [])) else None
     if d is None:
-        if fd.is_param(l) or True:
-            return Gate('match', 'value', [fd.read_place(pl)], body.path, bi, line)
+        # a bool assigned on several paths (`a() && b()`): every local call feeding it is a delegated check
+        if body.local_ty(l) == 'bool' and not pl.get('p') and not fd.is_param(l):
+            subs = []
+            for kind2, dbi2, x2 in fd.defs.get(l, []):
+                if kind2 == 'call':
+                    tgt2 = local_target(eng, x2)
+                    if tgt2 is not None:
+                        subs.append(Gate('deleg', tgt2, [fd.read_op(a) for a in x2['args']], body.path, bi, x2.get('line', line), callee=tgt2, args=x2['args']))
+                    else:
+                        subs.append(Gate('call', x2.get('callee') or '?', [fd.read_op(a) for a in x2['args']], body.path, bi, x2.get('line', line),
+                                         callee=x2.get('callee'), args=x2['args']))
+                elif kind2 == 'assign' and x2['rv']['k'] == 'use' and x2['rv']['op']['k'] in ('copy', 'move') and depth < 10:
+                    subs.append(_classify_value(eng, fd, x2['rv']['op']['pl'], bi, line, depth + 1))
+                elif kind2 == 'assign' and x2['rv']['k'] == 'binop' and x2['rv']['op'] in CMP_BINOPS:
+                    subs.append(Gate('cmp', x2['rv']['op'], [fd.read_op(x2['rv']['a']), fd.read_op(x2['rv']['b'])], body.path, bi, x2.get('line', line)))
+            # implicit flow: the conditions under which each definition executes (`a() && b()` assigns b() only if a())
+            if depth < 6:
+                seen_sw = set()
+                for kind2, dbi2, x2 in fd.defs.get(l, []):
+                    for (a_sw, s_sw) in body.control_deps_transitive(dbi2):
+                        if a_sw in seen_sw or a_sw == bi:
+                            continue
+                        seen_sw.add(a_sw)
+                        tsw = body.blocks[a_sw]['term']
+                        if tsw['k'] == 'switch' and tsw['discr']['k'] in ('copy', 'move') and tsw['discr']['pl']['l'] != l:
+                            subs.append(_classify_value(eng, fd, tsw['discr']['pl'], a_sw, tsw.get('line'), depth + 1))
+            if subs:
+                g = Gate('multi', 'bool-of-checks', [fd.read_place(pl)], body.path, bi, line)
+                g.args = subs
+                return g
+        return Gate('match', 'value', [fd.read_place(pl)], body.path, bi, line)
     kind, dbi, x = d
     if kind == 'assign':
         rv = x['rv']
@@ -260,8 +289,18 @@ class GateAnalysis:
             if zero_t and len(t['targets']) == 1 and zero_t[0] != t['otherwise']:
                 raw = (s != zero_t[0])
                 g.truth = (not raw) if g.negated else raw
-            gs.append(g)
+            gs.extend(self._flatten(g))
         return gs
+
+    def _flatten(self, g):
+        if g.kind != 'multi':
+            return [g]
+        out = []
+        for s in g.args:
+            s.edge = g.edge
+            s.truth = g.truth
+            out.extend(self._flatten(s))
+        return out
 
     def accept_paths(self, path, _stack=()):
         """list of accept paths of function `path`; each is a list of non-delegating Gates whose operand atom
@@ -287,10 +326,11 @@ class GateAnalysis:
                                        path, bi, extra.get('line'), callee=extra.get('callee'), args=extra['args']))
             elif kind == 'boolvar':
                 g = _classify_value(self.eng, fd, extra, bi, None, 0)
-                if g.kind == 'deleg':
-                    delegs.append(g)
-                else:
-                    direct.append(g)
+                for g2 in self._flatten(g):
+                    if g2.kind == 'deleg':
+                        delegs.append(g2)
+                    else:
+                        direct.append(g2)
             combos = [list(direct)]
             for dg in delegs:
                 cps = self.accept_paths(dg.callee, _stack + (path,))
